@@ -126,6 +126,20 @@ func genOCI(r *rand.Rand) *oci.Spec {
 			if chance(r, 50) {
 				l.Resources.Devices = append(l.Resources.Devices, oci.LinuxDeviceCgroup{Allow: true, Type: "c", Major: &mj, Minor: &mn, Access: "rw"})
 			}
+			// rules a runtime typically has in place: wildcards (absent major and/or
+			// minor), and rules for the very numbers the edits may add later
+			for k := r.Intn(4); k > 0; k-- {
+				rule := oci.LinuxDeviceCgroup{Allow: chance(r, 80), Type: pickStr(r, "c", "b", "a", ""), Access: pickStr(r, "rwm", "rw", "m", "r", "")}
+				if chance(r, 70) {
+					v := []int64{1, 7, 10, 195, int64(1 + r.Intn(200))}[r.Intn(5)]
+					rule.Major = &v
+				}
+				if chance(r, 40) {
+					v := []int64{0, 3, 5, 9, int64(r.Intn(200))}[r.Intn(5)]
+					rule.Minor = &v
+				}
+				l.Resources.Devices = append(l.Resources.Devices, rule)
+			}
 		}
 		if chance(r, 30) {
 			l.IntelRdt = &oci.LinuxIntelRdt{ClosID: "oldclos", L3CacheSchema: "L3:0=1", EnableCMT: true}
